@@ -500,8 +500,9 @@ def _quiet(key, P):
 
 
 def _recovery(ctx, q):
+    cur = params(ctx.src.func(UTIL, "extrema"))[:1]
     I = Interp(ctx, RES, f"DR_Results.{q}", cond=_quiet, noinline={"_compute_srs", "_init_results_cat", "_store_maxmin", "_init_mxmn"},
-               mutators={"extrema": [0]})
+               mutators={"extrema": [0] + cur})
     return ctx.src.func(RES, f"DR_Results.{q}"), good_paths(ctx, I)
 
 
